@@ -206,15 +206,24 @@ def run_one(scratch, h, extra=(), timeout=None):
     env = dict(os.environ, CARGO_TARGET_DIR=target_dir(h.features, h.crate), CARGO_NET_OFFLINE="true")
     cmd = cargo_kani_cmd(h, list(extra) + ["--harness", h.full, "--exact"])
     t0 = time.time()
+    import signal
+    proc = subprocess.Popen(cmd, cwd=os.path.join(scratch.repo, h.crate), env=env, stdout=subprocess.PIPE, stderr=subprocess.STDOUT, text=True,
+                            preexec_fn=_limit(h.mem_gb + 4), start_new_session=True)
     try:
-        r = subprocess.run(cmd, cwd=os.path.join(scratch.repo, h.crate), env=env, capture_output=True, text=True,
-                           timeout=timeout or h.timeout, preexec_fn=_limit(h.mem_gb + 4))
-        out = r.stdout + "\n" + r.stderr
-        rc = r.returncode
-    except subprocess.TimeoutExpired as e:
-        out = ((e.stdout or b"").decode(errors="replace") if isinstance(e.stdout, bytes) else (e.stdout or "")) + "\nTIMEOUT"
+        out, _ = proc.communicate(timeout=timeout or h.timeout)
+        rc = proc.returncode
+    except subprocess.TimeoutExpired:
+        # kill the whole process group: cargo-kani, kani-driver and cbmc
+        try:
+            os.killpg(proc.pid, signal.SIGKILL)
+        except ProcessLookupError:
+            pass
+        try:
+            out, _ = proc.communicate(timeout=20)
+        except Exception:
+            out = ""
+        out = (out or "") + "\nTIMEOUT"
         rc = -9
-        subprocess.run(["pkill", "-f", "--", h.full], capture_output=True)
     wall = time.time() - t0
     try:
         os.makedirs(os.path.join(CACHE, "kani-logs"), exist_ok=True)
